@@ -25,7 +25,7 @@ const NAccounts = 6
 
 // diffBits are the difficulty encodings the generator chooses from (index 0 is
 // the configured pow limit, i.e. the least work).
-var diffBits = []uint32{0x1f00ffff, 0x1e7fffff, 0x1e00ffff, 0x1d00ffff}
+var diffBits = []uint32{0x1f2fffff, 0x1f00ffff, 0x1e7fffff, 0x1e00ffff, 0x1d00ffff}
 
 // work is the model's own total-difficulty arithmetic: 2^256 / (target+1).
 func work(bits uint32) *big.Int {
@@ -177,6 +177,47 @@ func (w *World) MakeTxs(op *simrt.Op) []*types.Transaction {
 // Build executes one block spec on its parent and records it. It returns nil
 // when the parent is unknown or no transaction survived execution.
 func (w *World) Build(id, parent int, diffIdx int, dt int64, txops []simrt.Op) *Built {
+	return w.build(id, parent, diffIdx, dt, txops, nil, false)
+}
+
+// BuildRaw is Build without the producer's duplicate filter and with
+// ready-made transactions: the block is executed for real, so its tx root and
+// state root are consistent even when it contains a replayed transaction.
+func (w *World) BuildRaw(id, parent int, diffIdx int, dt int64, txs []*types.Transaction) *Built {
+	return w.build(id, parent, diffIdx, dt, nil, txs, true)
+}
+
+// Adopt records a block produced elsewhere (the node under test's own
+// producer) so that later blocks can be built on it: it is re-executed on the
+// factory to obtain its state there.
+func (w *World) Adopt(id int, blk *types.Block) *Built {
+	var parent = -1
+	for pid, b := range w.Blocks {
+		if string(b.Hash) == string(blk.ParentHash) {
+			parent = pid
+		}
+	}
+	if parent < 0 && string(blk.ParentHash) != string(w.Genesis.Hash(w.Cfg)) {
+		return nil
+	}
+	idx := 0
+	for i, bits := range diffBits {
+		if bits == blk.Difficulty {
+			idx = i
+		}
+	}
+	pt := w.Genesis.BlockTime
+	if parent >= 0 {
+		pt = w.Blocks[parent].Block.BlockTime
+	}
+	b := w.build(id, parent, idx, blk.BlockTime-pt, nil, blk.Txs, true)
+	if b != nil && string(b.Hash) != string(blk.Hash(w.Cfg)) {
+		simrt.Failf("adopted block re-executed on the factory has hash %x, original %x\n fac: %v\n org: %v", b.Hash, blk.Hash(w.Cfg), b.Block.GetHeader(w.Cfg), blk.GetHeader(w.Cfg))
+	}
+	return b
+}
+
+func (w *World) build(id, parent int, diffIdx int, dt int64, txops []simrt.Op, rawTxs []*types.Transaction, raw bool) *Built {
 	if _, dup := w.Blocks[id]; dup {
 		return nil
 	}
@@ -220,6 +261,12 @@ func (w *World) Build(id, parent int, diffIdx int, dt int64, txops []simrt.Op) *
 		for _, tx := range txs {
 			onBranch[string(tx.Hash())] = true
 			blk.Txs = append(blk.Txs, tx)
+		}
+	}
+	if raw {
+		blk.Txs = nil
+		for _, tx := range rawTxs {
+			blk.Txs = append(blk.Txs, types.Clone(tx).(*types.Transaction))
 		}
 	}
 	if len(blk.Txs) == 0 {
